@@ -6,6 +6,7 @@ import (
 	"golang.org/x/tools/go/ssa"
 
 	"polyverif/core"
+	"polyverif/eng"
 	"polyverif/ir"
 )
 
@@ -101,11 +102,14 @@ func checkCoinSelectorArithmetic(c *core.Ctx) {
 						continue
 					}
 					sl, ok := x.Common().Args[0].(*ssa.Slice)
-					if !ok || sl.Max == nil {
-						continue
+					if !ok || sl.High == nil {
+						continue // appending to the whole slice is the ordinary growth idiom
+					}
+					if eng.VariadicElems(x.Common().Args[1]) == nil && sl.Max == nil {
+						continue // append(s[:i], s[j:]...): the in-place deletion idiom, s is replaced by the result
 					}
 					nApp++
-					c.Decide(sl.High != nil && sameArith(sl.High, sl.Max, 0), "C26.no-aliasing-append", fn, "append(sel[:i:j], u) has j == i (append must copy, sel is read afterwards)", c.P.Rel(x.Pos()),
+					c.Decide(sl.Max != nil && sameArith(sl.High, sl.Max, 0), "C26.no-aliasing-append", fn, "append(sel[:i:j], u) has j == i (append must copy, sel is read afterwards)", c.P.Rel(x.Pos()),
 						"the capacity bound differs from the length bound: when len(sel) < cap(sel) the append overwrites sel's last element before the sum is corrected by its value")
 				}
 			}
